@@ -675,3 +675,44 @@ def renumbering_relation(rng, smi):
     if sorted(norm(r) for r in rings) == sorted(norm(r) for r in g2['rings']):
         return 'MolIso_up_to_ring_rotation_and_order'
     return 'other'
+
+
+# ----------------------------------------------------------------------------- remap chains: from a broken obligation to a molecule
+def remap_chains(scheme):
+    """(key, target) pairs of the live remap table whose target is itself a key: the theorems' ChainFree hypothesis fails"""
+    keys = set(str(k) for k in scheme.remaps)
+    return [(str(k), str(t[1])) for k, v in scheme.remaps.items() for t in v if str(t[1]) in keys and str(t[1]) != str(k)]
+
+
+def group_reach(lib, molecules):
+    """pre-remap name (group or correction descriptor) -> a molecule of `molecules` whose decomposition contains it"""
+    out = {}
+    for smi in molecules:
+        m = prepare(smi)
+        if m is None or m.GetNumAtoms() > 80:
+            continue
+        try:
+            d = declared(dict(scheme_input(lib.scheme, m), remaps=[]), parts=True)
+        except Exception:
+            continue
+        if 'ok' in d:
+            for part in d['ok']:
+                for name in part:
+                    out.setdefault(name, smi)
+    return out
+
+
+def chain_witnesses(lib, molecules):
+    """For every chain key -> target of the live remap table: mixtures 'A.B' and 'B.A' of a molecule containing the key's group
+    and one containing the target's group (the one-pass remap loop then depends on which group is met first).  Returns a list of
+    (key, target, 'A.B', 'B.A', A, B); empty when the table is chain-free or no molecule of the pool reaches both names."""
+    chains = remap_chains(lib.scheme)
+    if not chains:
+        return []
+    reach = group_reach(lib, molecules)
+    out = []
+    for k, t in chains:
+        if k in reach and t in reach:
+            a, b = reach[k], reach[t]
+            out.append((k, t, a + '.' + b, b + '.' + a, a, b))
+    return out
